@@ -3,7 +3,7 @@
 import importlib, json, os, sys
 ROOT = os.path.dirname(os.path.dirname(os.path.abspath(__file__)))
 sys.path.insert(0, os.path.join(ROOT, "lib")); sys.path.insert(0, os.path.join(ROOT, "props"))
-ids = sorted(f[:-3] for f in os.listdir(os.path.join(ROOT, "props")) if f.startswith("C") and f.endswith(".py"))
+ids = [l.strip() for l in open(os.path.join(ROOT, "props", "ENABLED")) if l.strip() and not l.startswith("#")]
 all_ids = [json.loads(l)["id"] for l in open(os.path.join(ROOT, "properties.jsonl"))]
 checks = []
 for pid in ids:
@@ -28,7 +28,7 @@ for pid in all_ids:
         na.append({"property_id": pid, "reason": reasons.get(pid, "not yet built: no Coq model/theorem for this property is wired into ./check at this commit (see DESIGN.md §3 for the planned approach)")})
 man = {
     "version": 1,
-    "setup_cmd": "./check --setup",
+    "setup_cmd": "./check setup",
     "hooks": {"guard": "LIBNICE_VERIF", "enable": "harnesses compile /repo's sources directly with -DLIBNICE_VERIF (no hook is currently needed: private headers, an interposed clock_gettime and a replacement nice_udp_bsd_socket_new give all observability)",
               "baseline_off_cmd": "meson test -C /repo/_build", "source_commits": [], "add_only": True},
     "engines": [{"name": "coq-proof+correspondence", "path": "check",
